@@ -85,6 +85,10 @@ def extract_internal_procedures(procedure):
     for r in procedure.subroutines:
         new_procedures += [extract_internal_procedure(procedure, r.name)]
 
+    # Nothing to do for procedures without a CONTAINS section
+    if not procedure.contains:
+        return new_procedures
+
     # Remove all subroutines (or functions) from the CONTAINS section.
     newbody = tuple(r for r in procedure.contains.body if not isinstance(r, Subroutine))
     procedure.contains = procedure.contains.clone(body=newbody)
@@ -124,12 +128,16 @@ def extract_internal_procedure(procedure, name):
 
     # Save any `DeferredTypeSymbol`s for later, they are in fact defined through imports in `procedure`,
     # and therefore not to be added as arguments to `inner`. (the next step removes them from `vars_to_resolve`)
-    var_imports_to_add = tuple(v for v in vars_to_resolve if isinstance(v, DeferredTypeSymbol))
+    # The same holds for imported symbols for which type information is available (enriched imports).
+    var_imports_to_add = tuple(
+        v for v in vars_to_resolve if isinstance(v, DeferredTypeSymbol) or v.type.imported
+    )
 
     # Lookup the definition of the variables in `vars_to_resolve` from the scope of `procedure`.
     # This provides maximal information on them.
-    vars_to_resolve = [proc_var for v in vars_to_resolve if \
-        (proc_var := procedure.variable_map.get(v.name))]
+    # (every variable only once, even if it is referenced with different subscripts in `inner`)
+    vars_to_resolve = list(dict.fromkeys(proc_var for v in vars_to_resolve if \
+        (proc_var := procedure.variable_map.get(v.name))))
 
     # For each array in `vars_to_resolve`, append any non-literal shape variables to `vars_to_resolve`,
     # if not already there.
@@ -165,7 +173,10 @@ def extract_internal_procedure(procedure, name):
     imports_to_add = []
     to_lookup_from_imports = dtype_imports_to_add + kind_imports_to_add + var_imports_to_add
     for val in to_lookup_from_imports:
-        imp = procedure.import_map[val.name]
+        imp = procedure.import_map.get(val.name)
+        if imp is None:
+            # Not imported in `procedure` itself, e.g. declared in or imported into the enclosing module
+            continue
         matching_import = tuple(i for i in imports_to_add if i.module == imp.module)
         if matching_import:
             # Have already encountered module name, modify existing.
